@@ -13,8 +13,10 @@
                  [k |-> "i", neg, b]           integer: magnitude, little endian, minimal, >= 1 byte
                  [k |-> "b", v]                boolean
                  [k |-> "none"]                None (optional yaw)
-                 [k |-> "m", fin, lo, ex]      fixed-point source: lo = floor(1000*arg) (exact
+                 [k |-> "m", fin, lo, ex, tr]  fixed-point source: lo = floor(1000*arg) (exact
                                                rational arithmetic, clamped to +-2^30), ex = no fraction
+                                               (tr is used by the design spec only)
+                 [k |-> "r", v]                raw payload bytes
                  [k |-> "q", n]                quaternion component as integer numerator (common scale)
                  [k |-> "l", v]                list of integers (base stations)
        out   : "sent" | "raised" | "none"
@@ -32,7 +34,8 @@
      * float fields: the wire value equals the argument rounded to float32 (NaN matches any NaN,
        zero matches zero of either sign -- numeric equality of the decoded value);
      * an argument without a wire value (float32 overflow, integer outside the field, fixed-point
-       value outside int16, zero quaternion, base station outside 0..15) must raise and nothing
+       value outside int16, zero quaternion, base station outside 0..15, payload that makes the
+       packet longer than 30 bytes) must raise and nothing
        may be sent;  raising, or sending nothing, is never by itself a violation (nothing was
        emitted that could decode wrongly);
      * fixed point: |wire - 1000*arg| < 1 LSB; quaternion: every transmitted component within
@@ -64,10 +67,12 @@ ISNONE(a) == Fd("ISNONE", a, 0, FALSE)   \* bool byte: argument a is None
 I16M(a)  == Fd("I16M", a, 0, FALSE)      \* int16 = argument * 1000
 QUAT(a)  == Fd("QUAT", a, 0, FALSE)      \* args a..a+3 (x,y,z,w) compressed into 32 bits
 MASK(a)  == Fd("MASK", a, 0, FALSE)      \* uint16 bit field from a list of 0..15
+RAW(a)   == Fd("RAW", a, 0, FALSE)       \* the bytes of argument a, as they are (last field only)
 
-Width(fd) == CASE fd.t \in {"C8", "U8", "B8", "ISNONE"} -> 1
-               [] fd.t \in {"U16", "I16M", "MASK"} -> 2
-               [] OTHER -> 4
+Width(fd, args) == CASE fd.t \in {"C8", "U8", "B8", "ISNONE"} -> 1
+                     [] fd.t \in {"U16", "I16M", "MASK"} -> 2
+                     [] fd.t = "RAW" -> Len(args[fd.a].v)
+                     [] OTHER -> 4
 
 \* ------------------------------------------------------------------ the wire layouts
 NoLayout == [ok |-> FALSE, port |-> 0, chan |-> 0, f |-> <<>>]
@@ -170,6 +175,9 @@ Layout(cmd, ver, xmode) ==
          \* [F] generic type 2 LPS_SHORT_LPP_PACKET {uint8 destId; payload}; lpp.h
          \* LPP_SHORT_ANCHORPOS = 1 {float x, y, z}.  args: anchor_id, x, y, z
          L(6, 1, <<C8(2), U8(1), C8(1), F32(2), F32(3), F32(4)>>)
+    [] cmd = "lpp_raw" ->
+         \* [F] LPS_SHORT_LPP_PACKET {uint8 destId; uint8 payload[]}: at most 28 bytes fit a CRTP packet
+         L(6, 1, <<C8(2), U8(1), RAW(2)>>)
     [] cmd = "lpp_reboot" ->
          \* [F] LPP_SHORT_REBOOT = 2 {uint8 bootMode}.  args: anchor_id, mode
          L(6, 1, <<C8(2), U8(1), C8(2), U8(2)>>)
@@ -213,9 +221,6 @@ Sub(s, from, n) == [i \in 1..n |-> s[from + i - 1]]
 U16Val(w) == w[1] + 256 * w[2]
 I16Val(w) == IF U16Val(w) >= 32768 THEN U16Val(w) - 65536 ELSE U16Val(w)
 Range(s) == {s[i] : i \in DOMAIN s}
-SetSum(S) == LET F[T \in SUBSET S] == IF T = {} THEN 0
-                                      ELSE LET x == CHOOSE y \in T : TRUE IN Pow2(x) + F[T \ {x}]
-             IN F[S]
 MaskOf(S) == LET F[i \in -1..15] == IF i = -1 THEN 0 ELSE F[i - 1] + (IF i \in S THEN Pow2(i) ELSE 0)
              IN F[15]
 
@@ -264,6 +269,7 @@ CanEncode(fd, args) ==
       [] fd.t = "QUAT" -> args[fd.a].n * args[fd.a].n + args[fd.a + 1].n * args[fd.a + 1].n
                           + args[fd.a + 2].n * args[fd.a + 2].n + args[fd.a + 3].n * args[fd.a + 3].n > 0
       [] fd.t = "MASK" -> \A i \in DOMAIN a.v : a.v[i] >= 0 /\ a.v[i] <= 15
+      [] fd.t = "RAW" -> TRUE                                 \* the 30-byte limit is checked on the whole layout
       [] OTHER -> FALSE
 
 \* FieldOK: the bytes w on the wire decode to the argument
@@ -272,7 +278,7 @@ FieldOK(fd, args, w) ==
     CASE fd.t = "C8"  -> w = <<fd.v>>
       [] fd.t = "B8"  -> w = <<IF a.v THEN 1 ELSE 0>>
       [] fd.t = "ISNONE" -> w = <<IF a.k = "none" THEN 1 ELSE 0>>
-      [] fd.t \in {"U8", "U16", "U32"} -> w = Pad(a.b, Width(fd))
+      [] fd.t \in {"U8", "U16", "U32"} -> w = Pad(a.b, Width(fd, args))
       [] fd.t = "F32" -> F32Eq(w, IF fd.neg THEN FlipSign(a.b) ELSE a.b)
       [] fd.t = "XR" -> (args[1].hasg /\ args[2].hasg) => XmodeMatch(w, args[1].g - args[2].g)
       [] fd.t = "XP" -> (args[1].hasg /\ args[2].hasg) => XmodeMatch(w, -(args[1].g + args[2].g))
@@ -287,6 +293,7 @@ FieldOK(fd, args, w) ==
       [] fd.t = "I16M" -> I16Val(w) = a.lo \/ (~a.ex /\ I16Val(w) = a.lo + 1)
       [] fd.t = "QUAT" -> QuatOK(w, <<args[fd.a].n, args[fd.a + 1].n, args[fd.a + 2].n, args[fd.a + 3].n>>)
       [] fd.t = "MASK" -> U16Val(w) = MaskOf(Range(a.v))
+      [] fd.t = "RAW" -> w = a.v
       [] OTHER -> FALSE
 
 FieldClauseName(fd) ==
@@ -301,14 +308,15 @@ FieldClauseName(fd) ==
       [] fd.t = "I16M" -> "FixedPointField"
       [] fd.t = "QUAT" -> "QuaternionField"
       [] fd.t = "MASK" -> "MaskField"
+      [] fd.t = "RAW" -> "RawField"
       [] OTHER -> "UnknownField"
 
-Offset(f, i) == LET F[j \in 0..(i - 1)] == IF j = 0 THEN 0 ELSE F[j - 1] + Width(f[j]) IN F[i - 1]
-TotalWidth(f) == Offset(f, Len(f) + 1)
+Offset(f, args, i) == LET F[j \in 0..(i - 1)] == IF j = 0 THEN 0 ELSE F[j - 1] + Width(f[j], args) IN F[i - 1]
+TotalWidth(f, args) == Offset(f, args, Len(f) + 1)
 
 \* index of the first field whose bytes do not decode to the argument (0 = none)
 FirstBadField(lay, args, data) ==
-    LET bad == {i \in DOMAIN lay.f : ~FieldOK(lay.f[i], args, Sub(data, Offset(lay.f, i) + 1, Width(lay.f[i])))}
+    LET bad == {i \in DOMAIN lay.f : ~FieldOK(lay.f[i], args, Sub(data, Offset(lay.f, args, i) + 1, Width(lay.f[i], args)))}
     IN IF bad = {} THEN 0 ELSE CHOOSE i \in bad : \A j \in bad : i <= j
 
 PortOf(h) == (h \div 16) % 16
@@ -319,21 +327,21 @@ EmissionClause(r) ==
     LET lay == Layout(r.cmd, r.ver, r.xmode) IN
     IF Len(r.pks) > 1 THEN "SinglePacket"
     ELSE IF ~lay.ok THEN (IF r.pks # <<>> THEN "UnsupportedCommandSent" ELSE "ok")
-    ELSE IF \E i \in DOMAIN lay.f : ~CanEncode(lay.f[i], r.args)
+    ELSE IF (\E i \in DOMAIN lay.f : ~CanEncode(lay.f[i], r.args)) \/ TotalWidth(lay.f, r.args) > 30
          THEN (IF r.pks # <<>> THEN "UnrepresentableSent"
                ELSE IF r.out # "raised" THEN "UnrepresentableNotRaised" ELSE "ok")
     ELSE IF r.pks = <<>> THEN "ok"
     ELSE LET pk == r.pks[1] IN
          IF Len(pk.data) > 30 THEN "PayloadSize"
          ELSE IF PortOf(pk.h) # lay.port \/ ChanOf(pk.h) # lay.chan THEN "PortChannel"
-         ELSE IF Len(pk.data) # TotalWidth(lay.f) THEN "Length"
+         ELSE IF Len(pk.data) # TotalWidth(lay.f, r.args) THEN "Length"
          ELSE LET i == FirstBadField(lay, r.args, pk.data) IN
               IF i = 0 THEN "ok" ELSE FieldClauseName(lay.f[i])
 
 EmissionField(r) ==      \* which field (1-based) the clause is about; 0 when not a field clause
     LET lay == Layout(r.cmd, r.ver, r.xmode) IN
     IF lay.ok /\ Len(r.pks) = 1 /\ (\A i \in DOMAIN lay.f : CanEncode(lay.f[i], r.args))
-       /\ Len(r.pks[1].data) = TotalWidth(lay.f)
+       /\ Len(r.pks[1].data) = TotalWidth(lay.f, r.args)
     THEN FirstBadField(lay, r.args, r.pks[1].data) ELSE 0
 
 EmissionOK(r) == EmissionClause(r) = "ok"
